@@ -6,6 +6,8 @@ the schedule in priority order. File arm: the disk is simulated (simkit.simdisk)
 open/write/close is an event, the run is stopped after every timestep and - crash.midflush - inside
 flushes, and only durable content survives."""
 import types
+
+import numpy          # (loaded once in the worker: forked runs must not import it each)
 import copy
 import os
 import tempfile
@@ -93,7 +95,7 @@ def gen_agent_arm(rng, tier):
     for i in range(rng.choice([1, 1, 2])):
         c = {"id": "AgentCollector" if i == 0 and rng.random() < 0.5 else f"col{i}",
              "prio": rng.choice([None, None, None, 2, 0, -1, -3]),
-             "func": rng.choice(["value", "value", "none_for_neg", "always_none", "listed", "even_only", "count_calls"]),
+             "func": rng.choice(["value", "value", "none_for_neg", "always_none", "listed", "even_only", "count_calls", "vector"]),
              "composite": rng.choice([None, None, "dict", "empty", "none", "shared", "shared", "proxy", "pairs", "tally"]), "ts": rng.random() < 0.4}
         c.update(gen_window(rng, steps))
         collectors.append(c)
@@ -151,10 +153,24 @@ FUNCS = {
     "none_for_neg": lambda v: None if v < 0 else v,
     "always_none": lambda v: None,
     "listed": lambda v: [v, v * 2],
+    # a vector per agent (numpy array; None for an agent at rest): arrays have no truth value and compare element-wise
+    "vector": lambda v: None if v % 3 == 0 else __import__("numpy").array([v, v + 1, -v]),
     "even_only": lambda v: v if v % 2 == 0 else None,
     # "count_calls" is stateful (see run_agent_arm): the value and how often THIS collector has asked about the agent so far
     "count_calls": lambda v: [v, "n"],
 }
+
+
+def _plain(x):
+    """Records with arrays inside, made comparable with == (an array compares element-wise and has no truth value)."""
+    import numpy
+    if isinstance(x, numpy.ndarray):
+        return ("ndarray", x.dtype.str, x.tolist())
+    if isinstance(x, dict):
+        return {k: _plain(v) for k, v in x.items()}
+    if isinstance(x, (list, tuple)):
+        return type(x)(_plain(v) for v in x)
+    return x
 
 
 class FalsyCall:
@@ -407,7 +423,7 @@ def run_agent_arm(sc, ctx):
                         r = [v, asked[aid]]
                     if r is not None:
                         rec[aid] = r
-                        if r == 0:
+                        if isinstance(r, int) and r == 0:
                             ctx.probe("value_zero_recorded")
                 if s["composite"] is not None:
                     ctx.probe("composite_used")
@@ -434,13 +450,13 @@ def run_agent_arm(sc, ctx):
             ctx.fail("timestep-entry-lost", f"t={t_} {cid_}: the record cannot hold both the timestep and the result of the agent "
                                             f"whose id is 'timestep': {cols[cid_].records[-1:]}", finding="F7")
         for cid, c in cols.items():
-            got = c.records
+            got = _plain(c.records)
             ctx.event("records", cid, t, len(got))
-            ctx.check(got[:len(before[cid])] == before[cid], "earlier-records-altered",
+            ctx.check(got[:len(before[cid])] == _plain(before[cid]), "earlier-records-altered",
                       lambda: f"t={t} {cid}: {got[:len(before[cid])]} was {before[cid]}")
-            ctx.check(got == want[cid], "records",
+            ctx.check(got == _plain(want[cid]), "records",
                       lambda: f"t={t} {cid}: records {got[-2:]} (n={len(got)}) expected {want[cid][-2:]} (n={len(want[cid])})")
-            ctx.check(len({id(r) for r in got}) == len(got), "shared-record-object", f"t={t} {cid}")
+            ctx.check(len({id(r) for r in c.records}) == len(got), "shared-record-object", f"t={t} {cid}")
         ctx.check(list(m.environment.agents) == list(pop), "population", f"t={t}")
         ctx.state([len(pop), t % 3, [len(x) for x in want.values()]])
     ctx.nontrivial = nontrivial
